@@ -1,5 +1,5 @@
 (* Proofs about Inst/Writes.v: the finite checks over the regenerated facts hold for the source lark has; what
-   they mean for an abstract heap (frame condition); and the lifting to Inst/Instance.v: a consumer / parser
+   they mean for an abstract aheap (frame condition); and the lifting to Inst/Instance.v: a consumer / parser
    that reads whatever the instance holds outside the writable cells behaves after any history as on the fresh
    instance. *)
 From Coq Require Import String List Bool Arith Lia.
@@ -128,9 +128,9 @@ End Frame.
 (* ------------------------------------------------------------------ lifting to the instance model *)
 (* In Inst/Instance.v a parser is an arbitrary consumer [want : list tok -> bool] inside the operation - a function that
    cannot see the instance.  Here the operation a caller performs (hence the consumer's demand, i.e. the parser's tables,
-   callbacks and configuration) is read from the heap when the call starts, and every call executes an arbitrary
+   callbacks and configuration) is read from the aheap when the call starts, and every call executes an arbitrary
    trace of licensed stores.  Because of the frame condition the probe's reading after any history is its reading of the
-   initial heap, so C10_history_pure applies. *)
+   initial aheap, so C10_history_pure applies. *)
 Section Lift.
 Variables Conf Sc CB LexSt Err Text : Type.
 Variable mk_scanner : Conf -> Sc.
@@ -149,12 +149,12 @@ Notation run_op := (run_op mk_scanner mk_callback mk_search at_end ntfuel init_l
 Notation run_hist := (run_hist mk_scanner mk_callback mk_search at_end ntfuel init_ls iter search sc_want sc_end).
 Notation op_pure := (op_pure mk_scanner mk_callback mk_search at_end ntfuel init_ls iter search sc_want sc_end).
 
-Record hcall := mkHcall { hc_op : heap -> op Text; hc_trace : list wevent }.
+Record hcall := mkHcall { hc_op : aheap -> op Text; hc_trace : list stev }.
 
 (* depends only on what the instance holds outside the writable cells *)
-Definition frame_only (f : heap -> op Text) : Prop := forall h h', frame_eq objs h h' -> f h = f h'.
+Definition frame_only (f : aheap -> op Text) : Prop := forall h h', frame_eq objs h h' -> f h = f h'.
 
-Fixpoint hrun (fuel : nat) (cf : iconf Conf) (s : inst Sc CB) (h : heap) (cs : list hcall) : inst Sc CB * heap :=
+Fixpoint hrun (fuel : nat) (cf : iconf Conf) (s : inst Sc CB) (h : aheap) (cs : list hcall) : inst Sc CB * aheap :=
   match cs with
   | [] => (s, h)
   | c :: r => hrun fuel cf (fst (run_op fuel cf s (hc_op c h))) (exec (hc_trace c) h) r
@@ -186,3 +186,26 @@ Proof.
   apply history_pure.
 Qed.
 End Lift.
+
+Lemma licensedb_sound objs e : licensedb objs e = true -> licensed objs e.
+Proof.
+  unfold licensedb. rewrite existsb_exists. intros (s & Hin & H). exists s. split; auto.
+  unfold licensesb in H. apply andb_true_iff in H. destruct H as [Hf H]. apply String.eqb_eq in Hf.
+  split; auto. destruct (self_plain s).
+  - apply andb_true_iff in H. destruct H as [Hm Ha]. apply mem_string_In in Hm. apply String.eqb_eq in Ha. auto.
+  - now apply negb_true_iff in H.
+Qed.
+
+(* the property-level statement: the four finite checks over the regenerated facts hold, and they mean that whatever a
+   call changes in an object the instance holds is a modelled cell *)
+Theorem parse_paths_write_only_per_call_objects :
+  stores_ok = true /\ escapes_ok = true /\ defaults_ok = true /\ lazy_ok = true /\
+  forall (objs : nat -> obj) (tr : list stev) (h : aheap) (o : nat) (a : string),
+    typed objs -> Forall (licensed objs) tr -> o_held (objs o) = true ->
+    exec tr h (o, a) <> h (o, a) ->
+    exists c, In (c, a) (modelled_cells ++ value_cells) /\
+              exists s, In s stores /\ s_cls s = c /\ In (o_cls (objs o)) (s_family s).
+Proof.
+  split; [exact stores_ok_holds|]. split; [exact escapes_ok_holds|]. split; [exact defaults_ok_holds|].
+  split; [exact lazy_ok_holds|]. intros objs tr h o a. apply changed_is_modelled.
+Qed.
